@@ -118,7 +118,13 @@ fn wvar_q_layouts<const N: usize>(ldata: u8, lw: u8, ddof: i64) {
     kani::cover!(x[0] != x[N - 1] && w[0] != w[N - 1], "W: asymmetric data and weights");
 }
 
-//@ prop=C07,C20:thorough tier=quick mem=4 timeout=2400 uses=Q inst="weighted_var on ArrayView1<Q> len 3: data reversed (stride -1), weights unit stride, ddof 0" bounds="x in 0..=3, w in 1..=4; unwind 18"
+//@ prop=C07,C20:thorough tier=quick mem=4 timeout=2400 uses=Q inst="weighted_var on ArrayView1<Q> len 2: data reversed (stride -1), weights unit stride, ddof 0" bounds="x in 0..=3, w in 1..=4; unwind 18"
+#[kani::proof]
+#[kani::unwind(18)]
+fn c07_wvar_q_n2_rev_data() {
+    wvar_q_layouts::<2>(3, 0, 0);
+}
+//@ prop=C07,C20 tier=thorough mem=4 timeout=3600 uses=Q inst="weighted_var on ArrayView1<Q> len 3: data reversed (stride -1), weights unit stride, ddof 0" bounds="x in 0..=3, w in 1..=4; unwind 18"
 #[kani::proof]
 #[kani::unwind(18)]
 fn c07_wvar_q_n3_rev_data() {
